@@ -250,9 +250,26 @@ def canon(w):
 def run(params, chooser):
     w = build(params, chooser)
     loop, env, pool = w.loop, w.env, w.pool
+    # asyncio.as_completed() starts its coroutines in the iteration order of a *set* of
+    # coroutine objects, i.e. in id()-hash order (used by the dual-stack connect): the start
+    # order is made an explorer choice instead of an accident of memory addresses
+    orig_as_completed = asyncio.as_completed
+
+    def as_completed(fs, **kw):
+        fs = list(fs)
+        rest = list(range(len(fs)))
+        order = []
+        while rest:
+            pick = chooser.choose('as_completed.start', [0] * len(rest)) \
+                if len(rest) > 1 else 0
+            order.append(rest.pop(pick))
+        tasks = [loop.create_task(fs[i]) for i in order]
+        return orig_as_completed(tasks, **kw)
+    asyncio.as_completed = as_completed
     try:
         return _run(w, params, chooser)
     finally:
+        asyncio.as_completed = orig_as_completed
         loop.uninstall()
 
 
